@@ -1,6 +1,7 @@
 """C07 Integer text and byte encodings round-trip and match the reference digits."""
 import json
 import os
+import shutil
 import sys
 import framework as fw
 
@@ -204,8 +205,8 @@ def run(ctx):
         _mon(ctx, "mon-witness", trw)
     _mon(ctx, "mon-gen", tr1, timeout=3000)
     # impl -> spec: seeded random values, flags, strings, byte strings, chunks
-    n = ctx.pick(3000, 30000)
-    tr2 = ctx.drive(drive, ["--seed", str(ctx.seed), "--n", str(n), "--max-words", str(ctx.pick(40, 80))], "trace-rnd.ndjson")
+    n = ctx.pick(3000, 12000)
+    tr2 = ctx.drive(drive, ["--seed", str(ctx.seed), "--n", str(n), "--max-words", str(ctx.pick(40, 60))], "trace-rnd.ndjson")
     _mon(ctx, "mon-rnd", tr2, timeout=3000)
     rc = ctx.finish(
         rule="one event = one call of the text / byte / chunk API (every call form of a parse function grouped in one "
@@ -266,4 +267,6 @@ def selftest(ctx):
     ok = got == base | set(want) and len(want) == 5
     print("SELFTEST %s: corrupted events %s -> monitor flagged %s (baseline known-finding events: %s)" %
           ("PASS" if ok else "FAIL", sorted(want.items()), sorted(got - base), sorted(base)))
+    if ok:
+        shutil.rmtree(ctx.rundir, ignore_errors=True)
     return 0 if ok else 2
